@@ -4,5 +4,9 @@ NoSuffix == {D \in Descriptors : D.suf = ""}
 SufQ == {D \in Descriptors : D.suf \in {"", "_deg", "_gon"}}
 All == Descriptors
 \* a spread of `from` descriptors for the quick tier: every permutation and sign, two suffixes
-FromQ == {D \in Descriptors : D.suf \in {"", "_deg"}}
+HorizFirst(D) == {D.ax[1], D.ax[2]} = {1, 2}
+\* quick: every axis order and sign combination without suffix, plus the
+\* unit-carrying forms the documentation shows (horizontal axes first)
+FromQ == {D \in Descriptors : D.suf = "" \/ (D.suf = "_deg" /\ HorizFirst(D))}
+ToQ   == {D \in Descriptors : D.suf = "" \/ (D.suf \in {"_deg", "_gon"} /\ HorizFirst(D))}
 =============================================================================
